@@ -186,6 +186,9 @@ func (vc *VC) callFunction(st *State, fr *Frame, callee *ssa.Function, fv FuncV,
 			names[sig.Params().At(i).Name()] = nameEntry{V: args[ai], T: sig.Params().At(i).Type()}
 			ai++
 		}
+		if c.Pkg != "" {
+			vc.usedRepoContracts[callee] = true
+		}
 		res := vc.applyContract(st, fr, c, funcShort(callee), names, sig, pos)
 		vc.setResult(fr, instr, res)
 		vc.callEvent(st, fr, full, args, res, true, pos, sig)
